@@ -73,6 +73,8 @@ def make_schema(sources, async_resolver, with_resolver=True):
 
 def _name_behaviour(parent, field, path):
     """what make_schema's name_resolver does, as a world function for the reference executor"""
+    if parent is None:
+        return ("null",)          # a None event: the library's default resolver finds nothing on it
     if field == "name" and isinstance(parent, dict) and parent.get("bad"):
         return ("error", "bad %s" % parent["bad"], {"event": parent["bad"]})
     return None
@@ -87,11 +89,11 @@ def person(k, bad=False, nested_bad=False):
 
 
 def event_sequences(tier):
-    kinds = ("ok", "bad", "nested")
+    kinds = ("ok", "bad", "nested", "none")        # "none": the source yields None - an event like any other (one result, root value None)
     maxlen = 4 if tier == "thorough" else 3
     for n in range(0, maxlen + 1):
         for combo in itertools.product(kinds, repeat=n):
-            yield [{"ping": person(k, bad=c == "bad", nested_bad=c == "nested"), "tick": k} for k, c in enumerate(combo)], combo
+            yield [None if c == "none" else {"ping": person(k, bad=c == "bad", nested_bad=c == "nested"), "tick": k} for k, c in enumerate(combo)], combo
 
 
 def check(tier, seed):
@@ -200,6 +202,11 @@ def check(tier, seed):
         ("several-root-fields-through-fragment", "subscription { ...B } fragment B on Subscription { tick ping { name } }", AsyncIORuntime, True, ExecutionError),
         ("several-root-fields-inline", "subscription { ... on Subscription { tick t2: tick } }", AsyncIORuntime, True, ExecutionError),
         ("no-subscription-resolver", "subscription { plain }", AsyncIORuntime, True, RuntimeError),
+        ("typename-next-to-a-field", "subscription { tick __typename }", AsyncIORuntime, True, ExecutionError),
+        ("typename-before-a-field", "subscription { __typename tick }", AsyncIORuntime, True, ExecutionError),
+        ("aliased-typename-next-to-a-field", "subscription { tick kind: __typename }", AsyncIORuntime, True, ExecutionError),
+        ("typename-through-fragment", "subscription { tick ...T } fragment T on Subscription { __typename }", AsyncIORuntime, True, ExecutionError),
+        ("typename-through-inline-fragment", "subscription { ... on Subscription { __typename } tick }", AsyncIORuntime, True, ExecutionError),
     ]
     for label, query, rt_cls, with_res, exc_cls in cases:
         for async_resolver in (False, True):
@@ -237,7 +244,7 @@ def check(tier, seed):
     run.cov["evaluations"] = n
     run.cov["distinct_nontrivial"] = nontrivial
     run.cov["rule"] = "%d subscription selections x all event sequences of length 0..%d over {plain event, event whose root resolver raises, event whose nested " \
-                      "resolver raises / yields null for a non-null field} x sync / async subscription resolver x 2 delay patterns; 7 refusal cases" % (
+                      "resolver raises / yields null for a non-null field} x sync / async subscription resolver x 2 delay patterns; 12 refusal cases" % (
                           len(SELECTIONS), 4 if tier == "thorough" else 3)
     run.cov["bounded_functions"].append({"functions": ["subscribe", "create_source_event_stream", "execute_subscription_event", "AsyncMap", "AsyncIORuntime.map_stream"],
                                          "bound": "%d streams" % n})
